@@ -99,10 +99,16 @@ class QGen:
             return ('not', self.formula(scope, depth - 1, calls))
         return ('paren', self.formula(scope, depth - 1, calls))
 
-    def query(self, nkinds=None, npreds=None, where=True, depth=3):
+    def query(self, nkinds=None, npreds=None, where=True, depth=3, collide=False):
         rng = self.rng
         kinds = rng.sample([k for k in KINDS if self.vocab.get(k) is not None], nkinds or rng.choice([1, 1, 1, 2]))
         aliases = rng.sample([a for a in ALIASES if a not in KINDS], len(kinds))
+        if collide and len(kinds) == 2:
+            # aliases that contain one another, in either FROM order
+            pair = list(rng.choice([('c', 'mc'), ('m', 'md'), ('md', 'mdx'), ('x', 'selectx'), ('a', 'name'), ('e', 'e1'), ('p', 'pq'), ('b', 'ab')]))
+            if rng.random() < 0.5:
+                pair.reverse()
+            aliases = pair
         frm = list(zip(kinds, aliases))
         scope = [(a, k) for k, a in frm]
         preds = []
